@@ -716,3 +716,82 @@ def pixel_reset_ieee(u: Unit):
             u.oblige(p, f"empty.pixel_reset_ieee[{pre}].zero_whatever_it_held", z3.Implies(inr, z3.And(goal, z_int(c.shape[0]) == D.ROWS, z_int(c.shape[1]) == D.COLS)),
                      {"previous value": F(g[0], g[1]) if pre == "full" else "none"}, PIXRESET_REPLAY)
         u.cover(f"empty.pixel_reset_ieee.cover[{pre}]", ps, lambda p: p.kind == "return")
+
+
+# ---- Readout setters: an assignment that is refused leaves the schedule as it was; an accepted one leaves a valid schedule --------------------
+RSET_REPLAY = lambda w: {"code": """
+import numpy as np
+from pyxel.exposure import Readout
+VIOLATED, DETAIL = False, 'a refused assignment to readout.start_time / readout.times changes nothing; an accepted one gives positive first step'
+def snap(r): return (float(r.start_time), np.asarray(r.times, dtype=float).tolist(), np.asarray(r._steps, dtype=float).tolist(), r._num_steps)
+for attr, bad in (('start_time', 2.0), ('start_time', 1.0), ('times', [0.25, 5.0]), ('times', [0.5, 1.0]), ('times', [0.0, 1.0]), ('times', []), ('times', [[1.0, 2.0]])):
+    r = Readout(times=[1.0, 2.0, 3.0], start_time=0.5)
+    before = snap(r)
+    try:
+        setattr(r, attr, bad)
+        VIOLATED, DETAIL = True, f'readout.{attr} = {bad!r} accepted on a schedule starting at 0.5 with times [1, 2, 3]'; break
+    except (ValueError, TypeError, IndexError):
+        pass
+    if snap(r) != before:
+        VIOLATED, DETAIL = True, f'readout.{attr} = {bad!r} is refused but leaves start / times / steps = {snap(r)} (was {before})'; break
+if not VIOLATED:
+    r = Readout(times=[1.0, 2.0, 3.0], start_time=0.5)
+    r.start_time = 0.25; r.times = [2.0, 4.0]
+    if snap(r) != (0.25, [2.0, 4.0], [1.75, 2.0], 2):
+        VIOLATED, DETAIL = True, f'accepted assignments give {snap(r)}'
+""", "expect": "Readout setters are atomic: refused => unchanged; accepted => steps recomputed from the new values"}
+
+
+@unit("C02", "readout.setters.atomic")
+def readout_setters_atomic(u: Unit):
+    """Readout.start_time and Readout.times setters on a valid schedule (symbolic start < t0 < t1, steps consistent), arbitrary new value:
+    if the assignment raises, start time, times, steps and step count are what they were; if it returns, start < first time, the stored
+    value is the given one and the steps are recomputed from the NEW pair (calculate_steps is the contract of unit steps)."""
+    RQ = "pyxel/exposure/readout.py"
+    rci = u.cls(f"{RQ}::Readout")
+    u.fn(f"{RQ}::Readout._set_steps")
+    cq = f"{RQ}::calculate_steps"
+    S0, T0, T1, NEW = z3.Real("start0"), z3.Real("t0"), z3.Real("t1"), z3.Real("new_value")
+    for attr in ("start_time", "times"):
+        fs = rci.setters[attr]
+        u.functions.setdefault(fs.qualname, {"sha": fs.sha, "file_sha": fs.module.sha, "paths": 0, "obligations": 0, "role": "under contract"})
+        cfg = Cfg("real")
+        rec = u.track({})
+
+        def steps(ex, args, kwargs, fr, rec=rec):
+            rec.setdefault("steps_of", []).append((kwargs.get("times", args[0] if args else None), kwargs.get("start_time", args[1] if len(args) > 1 else None)))
+            t = kwargs.get("times", args[0] if args else None)
+            n = ex.st.cell(t).shape[0]
+            return ex.st.alloc(HArr((n,), VDtype("float64"), lambda ix: VFloat(ex.st.fresh_real("step"))))
+        cfg.contracts[cq] = Contract(cq, steps, "C02.steps: steps[i] = t_i - (t_(i-1) | start)")
+
+        def setup(ex, attr=attr, rec=rec):
+            rec.clear()
+            st = ex.st
+            st.assume(z3.And(S0 >= 0, S0 < T0, T0 < T1))
+            times = st.alloc(HArr((2,), VDtype("float64"), lambda ix: VFloat(z3.If(z_int(ix[0]) == 0, T0, T1))))
+            old_steps = st.alloc(HArr((2,), VDtype("float64"), lambda ix: VFloat(z3.If(z_int(ix[0]) == 0, T0 - S0, T1 - T0))))
+            me = st.alloc(HObj(rci, {"_times": times, "_start_time": VFloat(S0), "_steps": old_steps, "_num_steps": VInt(2), "_times_linear": VBool(z3.Bool("linear0")),
+                                     "_non_destructive": VBool(False), "_time_domain_simulation": VBool(True)}))
+            ex.me, ex.old = me, dict(st.cell(me).fields)
+            val = VFloat(NEW) if attr == "start_time" else st.alloc(HList([VFloat(NEW), VFloat(z3.Real("new_value2"))]))
+            ex.val = val
+            return [me, val], {}
+        ps = u.paths(fs, setup, cfg, label=f"Readout.{attr}.setter")
+        for p in ps:
+            f = p.st.cell(p.ex.me).fields
+            if p.kind == "raise":
+                same = all(f.get(k) is v for k, v in p.ex.old.items())
+                u.oblige(p, f"readout.setters.atomic[{attr},refused]", bool(same), {"changed": str([k for k, v in p.ex.old.items() if f.get(k) is not v]), "new_value": NEW}, RSET_REPLAY, fnq=fs.qualname)
+                continue
+            so = rec.get("steps_of", [])
+            if attr == "start_time":
+                ok = isinstance(f.get("_start_time"), VFloat) and f["_times"] is p.ex.old["_times"] and len(so) == 1 and so[0][0] is f["_times"] and so[0][1] is f["_start_time"]
+                goal = z3.And(zb(bool(ok)), to_real(f["_start_time"]) == NEW, NEW < T0) if ok else z3.BoolVal(False)
+            else:
+                t = f.get("_times")
+                ok = p.ex.is_arr(t) and len(so) == 1 and so[0][0] is t and so[0][1] is f["_start_time"] and f["_start_time"] is p.ex.old["_start_time"]
+                goal = z3.And(zb(bool(ok)), to_real(p.st.cell(t).elem((z3.IntVal(0),))) == NEW, S0 < NEW, NEW != 0) if ok else z3.BoolVal(False)
+            u.oblige(p, f"readout.setters.atomic[{attr},accepted]", goal, {"new_value": NEW}, RSET_REPLAY, fnq=fs.qualname)
+        u.cover(f"readout.setters.cover[{attr}]", ps, lambda p: p.kind == "return")
+        u.cover(f"readout.setters.cover_refusal[{attr}]", ps, lambda p: p.kind == "raise")
